@@ -13,6 +13,11 @@ package corr
 //   rtp ssrc=<u32> seq=<u16> ts=<u32> dt=<ns>   one RTP packet read through the bound reader
 //   sr ssrc=<u32> ntp=<u64> rtp=<u32> dt=<ns>   one incoming rtcp.SenderReport through BindRTCPReader
 //   tick                                     advance the clock to the next tick instant
+//   jumprun ssrc= seq= ts= n= step= tsstep= dt= keep=   n times [advance dt; one RTP packet; advance to the next
+//                                            tick instant]; packet i carries seq+i*step (mod 2^16), ts+i*tsstep
+//                                            (mod 2^32).  Prints one digest line over all reports of the run
+//                                            (`run reports= lostsum= fracsum= lostmax= extsum= jitsum=`, sums mod 2^32)
+//                                            and then the last `keep` reports in full.
 //   unbind ssrc=<u32> dt=<ns>                UnbindRemoteStream
 // output: per tick and stream (sorted by media SSRC), every field of every ReceptionReport:
 //   `rr ssrc= ext= frac= lost= jit= lsr= dlsr=`   (the receiver's own random SSRC is masked)
@@ -84,6 +89,16 @@ func c06Run(t *testing.T, ops []string, o *Out) {
 			}))
 			synctest.Wait()
 		}
+		printRR := func(p c06Rec) string {
+			r := p.rr
+			x := ""
+			if p.n != 1 {
+				x = fmt.Sprintf(" n=%d", p.n)
+			}
+			return fmt.Sprintf("rr ssrc=%d ext=%d frac=%d lost=%d jit=%d lsr=%d dlsr=%d%s", r.SSRC, r.LastSequenceNumber, r.FractionLost,
+				r.TotalLost, r.Jitter, r.LastSenderReport, r.Delay, x)
+		}
+		var sink func(c06Rec) // nil: print every report; otherwise the run collector
 		flush := func() {
 			mu.Lock()
 			ps := pending
@@ -96,13 +111,11 @@ func c06Run(t *testing.T, ops []string, o *Out) {
 				return ps[i].rr.SSRC < ps[j].rr.SSRC
 			})
 			for _, p := range ps {
-				r := p.rr
-				x := ""
-				if p.n != 1 {
-					x = fmt.Sprintf(" n=%d", p.n)
+				if sink != nil {
+					sink(p)
+				} else {
+					o.P("%s", printRR(p))
 				}
-				o.P("rr ssrc=%d ext=%d frac=%d lost=%d jit=%d lsr=%d dlsr=%d%s", r.SSRC, r.LastSequenceNumber, r.FractionLost,
-					r.TotalLost, r.Jitter, r.LastSenderReport, r.Delay, x)
 			}
 		}
 		adv := func(ns int) {
@@ -114,6 +127,16 @@ func c06Run(t *testing.T, ops []string, o *Out) {
 			flush()
 		}
 		buf := make([]byte, 1500)
+		readRTP := func(rd interceptor.RTPReader, ssrc uint32, seq uint16, ts uint32) {
+			p := rtp.Packet{Header: rtp.Header{Version: 2, SequenceNumber: seq, Timestamp: ts, SSRC: ssrc}, Payload: []byte{1, 2, 3}}
+			var err error
+			if curRTP, err = p.Marshal(); err != nil {
+				panic(err)
+			}
+			if _, _, err = rd.Read(buf, interceptor.Attributes{}); err != nil {
+				panic(err)
+			}
+		}
 		for i, op := range ops {
 			name, m := kv(op)
 			need := func(keys ...string) bool {
@@ -142,15 +165,7 @@ func c06Run(t *testing.T, ops []string, o *Out) {
 					continue
 				}
 				adv(atoi(m["dt"]))
-				p := rtp.Packet{Header: rtp.Header{Version: 2, SequenceNumber: uint16(atoi(m["seq"])), Timestamp: uint32(atoi(m["ts"])),
-					SSRC: uint32(atoi(m["ssrc"]))}, Payload: []byte{1, 2, 3}}
-				var err error
-				if curRTP, err = p.Marshal(); err != nil {
-					panic(err)
-				}
-				if _, _, err = rd.Read(buf, interceptor.Attributes{}); err != nil {
-					panic(err)
-				}
+				readRTP(rd, uint32(atoi(m["ssrc"])), uint16(atoi(m["seq"])), uint32(atoi(m["ts"])))
 			case name == "sr" && need("ssrc", "ntp", "rtp", "dt"):
 				adv(atoi(m["dt"]))
 				var ntpv uint64
@@ -175,6 +190,42 @@ func c06Run(t *testing.T, ops []string, o *Out) {
 				ensure()
 				el := time.Since(start)
 				adv(int(interval - el%interval))
+			case name == "jumprun" && need("ssrc", "seq", "ts", "n", "step", "tsstep", "dt", "keep"):
+				ssrc := uint32(atoi(m["ssrc"]))
+				rd, ok := readers[ssrc]
+				n, seq, ts, step, tsstep := atoi(m["n"]), atoi(m["seq"]), atoi(m["ts"]), atoi(m["step"]), atoi(m["tsstep"])
+				if !ok || n <= 0 || n > 100000 || seq >= 65536 || step >= 65536 || ts >= 1<<32 || tsstep >= 1<<32 {
+					o.P("bad-op")
+					continue
+				}
+				var all []c06Rec
+				sink = func(p c06Rec) { all = append(all, p) }
+				for k := 0; k < n; k++ {
+					adv(atoi(m["dt"]))
+					readRTP(rd, ssrc, uint16(seq), uint32(ts))
+					el := time.Since(start)
+					adv(int(interval - el%interval))
+					seq, ts = (seq+step)&0xFFFF, (ts+tsstep)&0xFFFFFFFF
+				}
+				sink = nil
+				var lostsum, fracsum, lostmax, extsum, jitsum uint32
+				for _, p := range all {
+					lostsum += p.rr.TotalLost
+					fracsum += uint32(p.rr.FractionLost)
+					extsum += p.rr.LastSequenceNumber
+					jitsum += p.rr.Jitter
+					if p.rr.TotalLost > lostmax {
+						lostmax = p.rr.TotalLost
+					}
+				}
+				o.P("run reports=%d lostsum=%d fracsum=%d lostmax=%d extsum=%d jitsum=%d", len(all), lostsum, fracsum, lostmax, extsum, jitsum)
+				keep := atoi(m["keep"])
+				if keep > len(all) {
+					keep = len(all)
+				}
+				for _, p := range all[len(all)-keep:] {
+					o.P("%s", printRR(p))
+				}
 			case name == "unbind" && need("ssrc", "dt"):
 				ssrc := uint32(atoi(m["ssrc"]))
 				if _, ok := readers[ssrc]; !ok {
@@ -195,8 +246,13 @@ func c06Run(t *testing.T, ops []string, o *Out) {
 // disturbances are applied.
 func c06Gen(r *Rng, tier string, idx int) Case {
 	classes := []string{"inorder", "loss", "dup", "reorder", "seqwrap", "cycles", "tsfwd", "tsback", "tsconst",
-		"clockjump", "sr", "srforeign", "ticks", "idle", "multi", "mixed", "late8192", "f08"}
+		"clockjump", "sr", "srforeign", "ticks", "idle", "multi", "mixed", "late8192", "f08", "jumprun", "frac256"}
 	cl := classes[idx%len(classes)]
+	// sat24 (rare: each case runs ~2100 report intervals): the summed interval losses cross 2^24-1 while every
+	// interval stays inside the 8192 history; the cumulative count must saturate there and stay saturated.
+	if (tier != "thorough" && idx%900 == 7) || (tier == "thorough" && idx%2500 == 7) {
+		return c06Sat24(r, idx)
+	}
 	big := tier == "thorough" && cl == "cycles" && idx%7000 == 5 // one `cycles` case in 7000 wraps the 16-bit cycle counter
 	ops := []string{}
 	interval := 1000000000
@@ -251,6 +307,9 @@ func c06Gen(r *Rng, tier string, idx int) Case {
 	}
 	if cl == "f08" {
 		n = r.Range(3, 12)
+	}
+	if cl == "jumprun" || cl == "frac256" {
+		n = r.Range(2, 6)
 	}
 	tickOp := func() {
 		if r.Chance(1, 3) {
@@ -310,6 +369,50 @@ func c06Gen(r *Rng, tier string, idx int) Case {
 					ops = append(ops, "tick")
 				}
 			}
+		case "jumprun":
+			// a short run of [jump, report] pairs, then the stream goes on (the usual packet below)
+			if r.Chance(1, 2) {
+				step := r.Pick(1, 2, 255, 256, 257, 512, 2048, 4096, 8000, 8191, 8192)
+				k := r.Range(1, 12)
+				ops = append(ops, fmt.Sprintf("jumprun ssrc=%d seq=%d ts=%d n=%d step=%d tsstep=%d dt=%d keep=%d", s.ssrc, (s.ext+step)&0xFFFF,
+					(s.ts+s.tsStep)&0xFFFFFFFF, k, step, s.tsStep, r.Pick(0, 1000, s.pace), r.Range(0, 3)))
+				s.ext += step * k
+				s.ts = (s.ts + s.tsStep*k) & 0xFFFFFFFF
+			}
+		case "frac256":
+			// a report interval of exactly e = 256*k numbers of which m arrive, m around a multiple of k: the float
+			// quotient 256*lost/e is an exact integer (or just off one); every packet 1 ms apart, inside one interval
+			k := r.Pick(1, 1, 2, 3, 4, 5, 8, 16, 31, 32)
+			e := 256 * k
+			m := k*r.Range(1, 4) + r.Pick(-1, 0, 0, 1)
+			if m < 1 {
+				m = 1
+			}
+			if m > e {
+				m = e
+			}
+			if m > 150 {
+				m = 150
+			}
+			ops = append(ops, "tick")
+			offs := map[int]bool{e: true}
+			for len(offs) < m {
+				offs[r.Range(1, e)] = true
+			}
+			sorted := []int{}
+			for x := range offs {
+				sorted = append(sorted, x)
+			}
+			sort.Ints(sorted)
+			if r.Chance(1, 4) && len(sorted) > 2 { // some of them out of order
+				sorted[0], sorted[len(sorted)-2] = sorted[len(sorted)-2], sorted[0]
+			}
+			for _, x := range sorted {
+				ops = append(ops, fmt.Sprintf("rtp ssrc=%d seq=%d ts=%d dt=%d", s.ssrc, (s.ext+x)&0xFFFF, (s.ts+x*s.tsStep)&0xFFFFFFFF, 1000000))
+			}
+			ops = append(ops, "tick")
+			s.ext += e
+			s.ts = (s.ts + e*s.tsStep) & 0xFFFFFFFF
 		case "f08":
 			// a report interval of more than 8192 numbers with some of them missing (excluded point: expects F-08)
 			seqAdv = r.Pick(8193, 8200, 10000, 16384, 20000, 32767)
@@ -384,6 +487,43 @@ func c06Gen(r *Rng, tier string, idx int) Case {
 		ops = append(ops, "tick")
 	}
 	return Case{Class: cl, Ops: ops}
+}
+
+// c06Sat24: see the call site.  Variants: cross (n reports of `step-1` lost each, ending 5..150 reports beyond the
+// crossing), exact (the sum lands exactly on 2^24-1, then +1, then more), over1 (the sum lands exactly on 2^24).
+func c06Sat24(r *Rng, idx int) Case {
+	ssrc, rate := r.Pick(1, 5, 4294967295), r.Pick(8000, 90000)
+	seq, ts := r.Intn(65536), int(r.U64()%(1<<32))
+	ops := []string{fmt.Sprintf("bind ssrc=%d rate=%d dt=0", ssrc, rate), fmt.Sprintf("rtp ssrc=%d seq=%d ts=%d dt=1000", ssrc, seq, ts), "tick"}
+	run := func(n, step, keep int) {
+		ops = append(ops, fmt.Sprintf("jumprun ssrc=%d seq=%d ts=%d n=%d step=%d tsstep=%d dt=%d keep=%d", ssrc, (seq+step)&0xFFFF,
+			(ts+3000)&0xFFFFFFFF, n, step, 3000, r.Pick(1000, 20000000), keep))
+		seq, ts = (seq+n*step)&0xFFFF, (ts+n*3000)&0xFFFFFFFF
+	}
+	variant := []string{"cross", "exact", "over1"}[(idx/900+idx/2500)%3]
+	switch variant {
+	case "cross":
+		step := r.Pick(8000, 8192, 8191, 7680, 4096)
+		n := (1<<24)/(step-1) + r.Range(5, 150)
+		run(n, step, r.Range(1, 4))
+	case "exact":
+		run(2048, 8192, 2) // 2048 * 8191 = 16775168
+		run(1, 2048, 1)    // + 2047 = 16777215 = 2^24-1 exactly
+		run(1, 2, 1)       // one more lost: stays
+	case "over1":
+		run(2048, 8192, 2)
+		run(1, 2049, 1) // + 2048 = 2^24: saturates
+	}
+	// the stream goes on: saturation must hold afterwards too
+	for i := r.Range(1, 4); i > 0; i-- {
+		adv := r.Pick(1, 2, 3, 100, 8000)
+		seq = (seq + adv) & 0xFFFF
+		ts = (ts + 3000) & 0xFFFFFFFF
+		ops = append(ops, fmt.Sprintf("rtp ssrc=%d seq=%d ts=%d dt=20000000", ssrc, seq, ts), "tick")
+	}
+	run(r.Range(2, 20), r.Pick(2, 300, 8192), 2)
+	ops = append(ops, "tick")
+	return Case{Class: "sat24-" + variant, Ops: ops}
 }
 
 func init() {
